@@ -772,4 +772,31 @@ theorem recv_timeout_bounds_inv (ls : List Label) (s : State) (h : runZL {} ls =
     ∀ r ∈ s.log, RecOk r :=
   (runZL_inv zinv_step ls _ _ zinv_init h).log
 
+/-! ### runs: appending a step; zero-latency executions are executions -/
+
+theorem run_snoc (ks : List Label) (a m b : State) (l : Label)
+    (hk : run a ks = some m) (hl : step m l = some b) : run a (ks ++ [l]) = some b := by
+  induction ks generalizing a with
+  | nil =>
+    simp only [run, Option.some.injEq] at hk
+    subst hk
+    simp only [List.nil_append, run, hl]
+  | cons k ks ih =>
+    simp only [run] at hk
+    cases h1 : step a k with
+    | none => rw [h1] at hk; cases hk
+    | some a1 =>
+      rw [h1] at hk
+      simp only [List.cons_append, run, h1]
+      exact ih a1 hk
+
+/-- a zero-latency execution is an execution. -/
+theorem runZL_reachable (ls : List Label) (s : State) (h : runZL {} ls = some s) : Reachable s := by
+  have key : ∀ ls (a b : State), Reachable a → runZL a ls = some b → Reachable b :=
+    runZL_inv (Inv := Reachable) (by
+      intro a l b ⟨ks, hk⟩ hst
+      exact ⟨ks ++ [l], run_snoc ks {} a b l hk (stepZL_step hst).1⟩)
+  exact key ls {} s ⟨[], rfl⟩ h
+
+
 end TH.Lts.Queue
